@@ -15,6 +15,63 @@ type term struct {
 	val  uint64
 	name string
 	id   int
+
+	supDone bool
+	supVar  *term // the single variable t depends on (nil if none or several)
+	supMany bool  // depends on more than one variable
+	truth   *[4]uint64
+}
+
+// support computes which variables t depends on (exactly for 0 or 1, "many" otherwise).
+func (t *term) support() (*term, bool) {
+	if t.supDone {
+		return t.supVar, t.supMany
+	}
+	switch t.op {
+	case "const":
+	case "var":
+		t.supVar = t
+	default:
+		for _, a := range t.args {
+			v, many := a.support()
+			if many {
+				t.supMany = true
+				break
+			}
+			if v != nil {
+				if t.supVar == nil {
+					t.supVar = v
+				} else if t.supVar != v {
+					t.supMany = true
+					break
+				}
+			}
+		}
+		if t.supMany {
+			t.supVar = nil
+		}
+	}
+	t.supDone = true
+	return t.supVar, t.supMany
+}
+
+// truthTable returns, for a Bool term over one 8-bit variable, the set of
+// values of that variable for which the term is true.
+func (t *term) truthTable() *[4]uint64 {
+	if t.truth != nil {
+		return t.truth
+	}
+	v, _ := t.support()
+	var tt [4]uint64
+	m := map[string]uint64{}
+	for x := 0; x < 256; x++ {
+		m[v.name] = uint64(x)
+		if evalTerm(t, m, map[int]uint64{}) != 0 {
+			tt[x>>6] |= 1 << uint(x&63)
+		}
+	}
+	t.truth = &tt
+	return t.truth
 }
 
 var termSeq int
